@@ -24,6 +24,31 @@ CHECKS = {
     ),
 }
 
+CHECKS["C04"] = (
+    "exploration",
+    "bounded-exhaustive enumeration of a (model x parameter x t) lattice against an independent expm reference",
+    "Every point of a declared finite lattice (all substitution models; HKY 7 kappa x 87+16 frequency "
+    "points incl. a magnitude sweep of the smallest frequency down to 1e-8; GTR {1e-4,1,1e4}^6 rates; "
+    "every mapping of the general symmetric / non-symmetric models onto <=3 / <=2 rates; MG94 for all "
+    "15 genetic codes) x 10 values of t x every arrangement of t as [branches, categories] x batched "
+    "pairs is evaluated on the real models and compared with rate matrices rebuilt from the documented "
+    "parameterisation and a Taylor scaling-and-squaring exponential (mpmath arbitrates borderline "
+    "cases): generator properties, normalisation, P=exp(Qt) to 1e-9, row sums, P(0)=I, semigroup, "
+    "stationarity and detailed balance.",
+    "Finite lattice of continuous values; nothing is claimed between lattice points. numpy/mpmath are trusted.",
+    "DESIGN.md §3 C04",
+)
+CHECKS["C05"] = (
+    "exploration",
+    "bounded-exhaustive enumeration of site-model parameter lattice plus all update histories of depth<=2",
+    "Full lattice shape(13) x invariant proportion(6) x categories(1..16) x relative rate(3), every subset of "
+    "parameters batched, both read orders (rates first / probabilities first) and every update history "
+    "of depth <=2 on the same instance; each value compared with the documented median-quantile "
+    "discretisation computed independently (numpy, cross-checked with mpmath).",
+    "Finite lattice of continuous values.",
+    "DESIGN.md §3 C05",
+)
+
 NOT_APPLICABLE = {}
 
 PENDING_REASON = ("check not built yet in this revision (planned in DESIGN.md §3); "
